@@ -44,3 +44,31 @@ pub fn run_at(w: &[&str]) -> String {
     if ra.is_err() || rb.is_err() { return "fmt-error".into() }
     format!("{} | {}", hex(a.buf.as_bytes()), hex(b.buf.as_bytes()))
 }
+
+/// `cli <hex>`: the command line front end `cbor-display` (built from the repository's own bin target; path in `VERIF_CLI_BIN`) fed the
+/// bytes on stdin and through `-f <file>`, next to `minicbor::display` of the same bytes in this process:
+/// `<hex of stdout> | <hex of stdout> | <hex of display ++ newline>`.
+pub fn run_cli(w: &[&str]) -> String {
+    use std::io::Write as _;
+    use std::process::{Command, Stdio};
+    if w.len() != 1 { return "bad-op".into() }
+    let input = match if w[0] == "-" { Some(Vec::new()) } else { unhex(w[0]) } { Some(b) => b, None => return "bad-op".into() };
+    let bin = match std::env::var("VERIF_CLI_BIN") { Ok(b) => b, Err(_) => return "no-cli".into() };
+    let via_stdin = (|| -> std::io::Result<Vec<u8>> {
+        let mut c = Command::new(&bin).stdin(Stdio::piped()).stdout(Stdio::piped()).stderr(Stdio::null()).spawn()?;
+        c.stdin.take().unwrap().write_all(&input)?;
+        Ok(c.wait_with_output()?.stdout)
+    })();
+    let path = std::env::temp_dir().join(format!("verif-cli-{}.cbor", std::process::id()));
+    let via_file = (|| -> std::io::Result<Vec<u8>> {
+        std::fs::write(&path, &input)?;
+        let o = Command::new(&bin).arg("-f").arg(&path).stdin(Stdio::null()).stderr(Stdio::null()).output()?;
+        Ok(o.stdout)
+    })();
+    let _ = std::fs::remove_file(&path);
+    let here = format!("{}\n", minicbor::display(&input));
+    match (via_stdin, via_file) {
+        (Ok(a), Ok(b)) => format!("{} | {} | {}", hex(&a), hex(&b), hex(here.as_bytes())),
+        _ => "spawn-failed".into()
+    }
+}
